@@ -123,6 +123,14 @@ def extract(repo):
         raise Refuse("__Bc_Integration_Dim does not use the mass quadrature")
     if "exclusively=True" not in src:
         raise Refuse("__Bc_Integration_Dim does not select elements exclusively")
+    # every group of the requested dimension is offered the WHOLE selection (Model/Loads.lean sums over the groups independently)
+    stmts = [ast.unparse(st) for st in ast.walk(integ) if isinstance(st, ast.stmt)]
+    for need in ("elements = groupElem.Get_Elements_Nodes(nodes, exclusively=True)", "connect = groupElem.connect[elements]", "eval_n[nodes] = values[u]"):
+        if need not in stmts:
+            raise Refuse(f"__Bc_Integration_Dim: statement not found: {need}")
+    loops = [n for n in ast.walk(integ) if isinstance(n, ast.For) and ast.unparse(n.iter) == "self.mesh.Get_list_groupElem(dim)"]
+    if len(loops) != 1 or any(isinstance(n, ast.Break) for n in ast.walk(loops[0])):
+        raise Refuse("__Bc_Integration_Dim: the loop over the element groups of the requested dimension is not the expected one (or leaves early)")
     eins = _einsums(integ)
     axes = _sum_axes(integ)
     # branch structure: `if isinstance(values[u], (int, float)) or callable(values[u])` -> gauss branch else nodal
